@@ -43,6 +43,19 @@ func Run(p gsim.Plan) (v hk.Verdict) {
 		c := e.Commit
 		k := c.New.Key
 
+		// ABA across incarnations: inputs restart at version 1 when re-created, so a controller's finalizer update that
+		// was read from the previous incarnation can land on the new one and overwrite its content (the same
+		// observation as for C04; Destroy + re-Create by the owner while a write is in flight is outside the statement).
+		// Controllers never change an input's value or phase, so such a commit is recognisable; the ordering oracles do
+		// not apply to it and the state simply continues from it.
+		if k.Typ == hres.TypeGA && c.Kind == model.Updated && e.Via == "rt" && c.Old != nil && (c.New.Val != c.Old.Val || c.New.Phase != c.Old.Phase) {
+			v.Label("aba-overwrite-of-recreated-input-tolerated")
+
+			cur[k] = c.New
+
+			continue
+		}
+
 		switch {
 		case k.Typ == hres.TypeGB && c.Kind == model.Created && e.Via == "rt":
 			// (i) the source input exists and carries the controller's finalizer
